@@ -30,6 +30,10 @@ DEFECTS = [
     ("unknown-function", "nofn();", "syntax", "body"),
     ("redefinition", "char v0;", "syntax", "top-after-decl"),
     ("too-many-args", "f(1, 2, 3);", "syntax", "body"),
+    # errors raised by the code generator (the position travels through syntax_error / compiler_error)
+    ("codegen-multiply", "v0 = v0 * v0;", "syntax", "body"),
+    ("codegen-break", "break;", "syntax", "body"),
+    ("codegen-continue", "continue;", "syntax", "body"),
 ]
 
 SHIFTERS = ["/* one\n   two\n   three */", "// line comment", "", "\n", "#define ZED%d 12", "#if 0\nskipped 1\nskipped 2\n#endif", "#ifdef NOPE\nx\n#else\n#endif",
@@ -67,13 +71,15 @@ def build_case(rng, kind, text, where, in_include):
             lines.append(rng.choice(["  v0 = 1;", "  v0++; // c", "  /* c */ v0 = 2;", "", "  v0 = \\\n   3;"]))
         lines = [x for l in lines for x in l.split("\n")]
         # the defect, possibly spliced over two physical lines
+        # the statement starts in the first column as often as it is indented (blanks, a tab, deep)
+        ind = rng.choice(["", "", "  ", "\t", "        "])
         if rng.random() < 0.3 and " " in text:
             a, b = text.split(" ", 1)
-            lines.append("  " + a + " \\")
-            lines.append("    " + b)
+            lines.append(ind + a + " \\")
+            lines.append(rng.choice(["", "    "]) + b)
             target = [len(lines) - 1, len(lines)]
         else:
-            lines.append("  " + text)
+            lines.append(ind + text)
             target = [len(lines)]
         lines.append("}")
     for _ in range(rng.randint(0, 2)):
